@@ -157,14 +157,16 @@ Rescan(S, fi) == IF S = {} THEN fi
                  ELSE LET b == CHOOSE x \in S : TRUE IN
                       \* UpdateBlockInfo: AddBlock; nSize = max(pos.nPos + serialized size with witness, nSize)
                       Rescan(S \ {b}, [AddBlock(fi, H(b), Time(b)) EXCEPT !.sz = Max(idx[b].dpos + Sz(b), @)])
-Reindex ==
+\* ord: "fileorder" = blocks are recorded as the scan meets them; "deferred" = every block's parent was still unknown when the
+\* scan met it (blocks_with_unknown_parent), so the blocks are recorded later, last found first.  The result is the same.
+Reindex(ord) ==
   /\ fault = NoFault /\ ~reidx /\ Len(info) > 0 /\ \A n \in 1..Len(blen) : blen[n] # -1
   /\ info' = [n \in 1..Len(info) |-> Rescan({b \in Blocks : idx[b].data /\ idx[b].file = n - 1}, ZeroInfo)]
   /\ idx' = [b \in Blocks |-> IF idx[b].data THEN [idx[b] EXCEPT !.upos = 0, !.undo = FALSE] ELSE NoIdx]
   /\ cur' = [file |-> Len(info) - 1, uh |-> 0]          \* the cursor follows the highest file seen; undo height starts over
   /\ reidx' = TRUE
   /\ UNCHANGED <<blen, rlen, fault>>
-  /\ lastAct' = <<"reindex">> /\ lastRes' = Cardinality({b \in Blocks : idx[b].data})
+  /\ lastAct' = <<"reindex", ord>> /\ lastRes' = Cardinality({b \in Blocks : idx[b].data})
 
 ----
 \* Faults.  Offsets of the region boundaries of the record of block b, relative to the start of its file.
@@ -205,7 +207,7 @@ Restore ==
 Next ==
   \/ \E b \in Blocks : WriteBlock(b) \/ WriteUndo(b)
   \/ Flush
-  \/ Reindex
+  \/ \E ord \in {"fileorder", "deferred"} : Reindex(ord)
   \/ \E n \in 0..MaxFile : Prune(n)
   \/ \E b \in Blocks : (\E r \in BlkRegions : Flip("blk", b, r)) \/ (\E r \in UndoRegions : Flip("rev", b, r))
   \/ \E b \in Blocks : (\E bd \in BlkBounds : Trunc("blk", b, bd)) \/ (\E bd \in UndoBounds : Trunc("rev", b, bd))
